@@ -10,7 +10,7 @@ From Flocq Require Import Core.Core IEEE754.BinarySingleNaN.
 From RV Require Import Base.Wire Base.Text Base.NumC Base.TextC
   Host.Core Host.Utils Host.Sensors Host.Serial Host.UtilsFloat Host.CoreKeys
   Proofs.NumCP Proofs.CoreP Proofs.UtilsP Proofs.SensorsP
-  Proofs.UtilsFloatSP Proofs.UtilsFloatP Proofs.UtilsFloatErrP Proofs.CoreKeysP.
+  Proofs.UtilsFloatSP Proofs.UtilsFloatP Proofs.UtilsFloatErrP Proofs.UtilsFloatPrim Proofs.CoreKeysP.
 Import ListNotations.
 Open Scope Z_scope.
 
@@ -601,6 +601,14 @@ Example C20_fmap_hypotheses_nonvacuous :
 Proof. exact error_hyps_nonvacuous. Qed.
 Print Assumptions C20_fmap_hypotheses_nonvacuous.
 
+(* the SpecFloat model against Coq's PRIMITIVE binary64 floats (kernel hardware arithmetic):
+   Utils.map evaluated with the primitive operations agrees bit for bit with fmap_ff on all
+   26620 tuples of a table of boundary values (specials, signed zeros, subnormals, DBL_MAX) *)
+Example C20_fmap_agrees_with_primitive_floats :
+  (Z.of_nat (length tuples) =? 26620)%Z = true /\ forallb agree tuples = true.
+Proof. exact prim_agrees. Qed.
+Print Assumptions C20_fmap_agrees_with_primitive_floats.
+
 (* ---- sleep *)
 
 (* for EVERY argument: an exception and no call, or exactly one call with float(d) / 1000.0 *)
@@ -626,6 +634,25 @@ Theorem C20_fsleep_float : forall d : B,
       fsleep (NF (b2sf d)) = ([b2sf s], FOk tt) /\ is_finite s = true /\ b2r s = rnd (b2r d / 1000)%R).
 Proof. exact fsleep_float. Qed.
 Print Assumptions C20_fsleep_float.
+
+(* float(z) of an int is the correctly rounded value; OverflowError exactly when that is
+   not below 2^1024 *)
+Theorem C20_float_of_int : forall z : Z,
+  (in_range (rnd (IZR z)) ->
+     exists b : B, z2f z = Some (b2sf b) /\ is_finite b = true /\ b2r b = rnd (IZR z)) /\
+  (~ in_range (rnd (IZR z)) -> z2f z = None).
+Proof. exact z2f_correct. Qed.
+Print Assumptions C20_float_of_int.
+
+(* ints: negatives refused, too large for float(): OverflowError and no call, otherwise ONE
+   call with rnd (rnd z / 1000) *)
+Theorem C20_fsleep_int : forall z : Z,
+  (z < 0 -> fsleep (NI z) = ([], FRaise EValue)) /\
+  (0 <= z -> ~ in_range (rnd (IZR z)) -> fsleep (NI z) = ([], FRaise EOverflow)) /\
+  (0 <= z -> in_range (rnd (IZR z)) -> exists s : B,
+      fsleep (NI z) = ([b2sf s], FOk tt) /\ is_finite s = true /\ b2r s = rnd (rnd (IZR z) / 1000)%R).
+Proof. exact fsleep_int. Qed.
+Print Assumptions C20_fsleep_int.
 
 Theorem C20_fsleep_specials :
   fsleep (NF S754_nan) = ([S754_nan], FOk tt) /\
@@ -674,6 +701,19 @@ Theorem C20_xpin_own_keys : forall (q : Q) (z : Z) (t : text),
   (wf_text t = true -> none_key <> normalise (PinS t)).
 Proof. exact (fun q z t => conj (float_key_not_int q z) (none_key_not_str t)). Qed.
 Print Assumptions C20_xpin_own_keys.
+
+(* THE KEY RELATION of the Core dicts over pins of any hashable type: same key exactly when
+   Python identifies the normalised objects - equal numbers across int / bool / float /
+   all-digit str, equal other strings, or both None *)
+Theorem C20_xpin_same_key : forall a b : xpin,
+  a <> XUnhashable -> b <> XUnhashable -> wf_xpin a = true -> wf_xpin b = true ->
+  (xkey a = xkey b <-> same_key a b = true).
+Proof. exact xkey_same. Qed.
+Print Assumptions C20_xpin_same_key.
+
+Theorem C20_xpin_float_keys : forall x y : Q, float_key x = float_key y <-> (x == y)%Q.
+Proof. exact float_key_eq. Qed.
+Print Assumptions C20_xpin_float_keys.
 
 (* an unhashable pin makes the call raise TypeError and changes nothing *)
 Theorem C20_xpin_unhashable : forall (s : core) (o : xop),
